@@ -219,6 +219,46 @@ def extract_prog(src_text, spec, tables):
             f"Definition {spec['name']} : prog :=\n{term}.\n"), h
 
 
+def float_expr(e, params):
+    """a float expression of the source as a term over Lib/PyValid.v:fops (fail-closed)"""
+    if isinstance(e, ast.Name):
+        if e.id not in params:
+            raise SiteError(f"free name {e.id} in float expression")
+        return e.id
+    if isinstance(e, ast.Constant) and isinstance(e.value, int) and not isinstance(e.value, bool):
+        return f"(f_of_Z F ({e.value}))"
+    if isinstance(e, ast.BinOp) and isinstance(e.op, (ast.Mult, ast.Div, ast.Add)):
+        fn = {ast.Mult: "f_mul", ast.Div: "f_div", ast.Add: "f_add"}[type(e.op)]
+        return f"({fn} F {float_expr(e.left, params)} {float_expr(e.right, params)})"
+    if isinstance(e, ast.Call) and not e.keywords:
+        f = ast.unparse(e.func)
+        if f == "np.log" and len(e.args) == 1:
+            return f"(f_log F {float_expr(e.args[0], params)})"
+        if f == "max" and len(e.args) == 2:
+            return f"(f_max F {float_expr(e.args[0], params)} {float_expr(e.args[1], params)})"
+    if isinstance(e, ast.Compare) and len(e.ops) == 1 and isinstance(e.ops[0], ast.Gt):
+        return f"(f_gt F {float_expr(e.left, params)} {float_expr(e.comparators[0], params)})"
+    raise SiteError(f"float expression `{ast.unparse(e)}`")
+
+
+def float_test(src_text, spec):
+    tree = ast.parse(src_text)
+    fn = py2v.find_function(tree, spec["func"])
+    loops = [n for n in fn.body if isinstance(n, ast.While)]
+    k = spec["locator"][1]
+    if len(loops) <= k:
+        raise SiteError(f"{spec['func']} has no top-level while #{k}")
+    hits = [n for n in loops[k].body if isinstance(n, ast.If) and len(n.body) == 1 and isinstance(n.body[0], ast.Break) and not n.orelse]
+    if len(hits) != 1:
+        raise SiteError("expected exactly one `if <test>: break` in the loop")
+    term = float_expr(hits[0].test, spec["params"])
+    src = ast.unparse(hits[0].test)
+    h = hashlib.sha256(src.encode()).hexdigest()[:16]
+    args = " ".join(spec["params"])
+    return (f"(* float test {spec['name']} from {spec['file']}:{spec['func']}: `{src}` srchash={h} *)\n"
+            f"Definition {spec['name']} (F : fops) ({args} : ft F) : bool :=\n{term}.\n"), h
+
+
 def generate(repo):
     sp = importlib.util.spec_from_file_location(
         "frags_validators", os.path.join(os.path.dirname(_HERE), "frags", "validators.py"))
@@ -230,6 +270,11 @@ def generate(repo):
         try:
             with open(os.path.join(repo, spec["file"])) as f:
                 text = f.read()
+            if spec["locator"][0] == "float_test":
+                coq, h = float_test(text, spec)
+                out.append(coq)
+                report[spec["name"]] = {"status": "ok", "hash": h}
+                continue
             synth, fname = synthesize(text, spec)
             if synth is None:
                 h = hashlib.sha256(str(spec["locator"][1]).encode()).hexdigest()[:16]
